@@ -75,7 +75,9 @@ pub fn compare(op: &CompareOperator, l: &RV, r: &RV) -> Expect {
     let comparable = (is_numeric(l) && is_numeric(r)) || (l.ty() == r.ty());
     if !comparable {
         // arrays of different element types are "same-typed arrays" only loosely: error or element-wise verdict
-        if matches!((l, r), (RV::Arr(..), RV::Arr(..))) { return Expect::both_bools().or_err(); }
+        // arrays of different element types: a type mismatch (error) - unless an array has no non-NULL element, in which
+        // case its element type is not determined by its contents and an implementation may type it either way
+        if let (RV::Arr(_, a), RV::Arr(_, b)) = (l, r) { if a.iter().all(|x| x.is_null()) || b.iter().all(|x| x.is_null()) { return Expect::both_bools().or_err(); } }
         return Expect::error();
     }
     if has_nan(l) || has_nan(r) { return Expect::both_bools(); }
